@@ -421,6 +421,10 @@ func (v *FHIRPathVisitor) VisitExternalConstant(ctx *grammar.ExternalConstantCon
 // root of the expression. If so, it will return a TypeExpression. Otherwise, it returns a FieldExpression.
 func (v *FHIRPathVisitor) VisitMemberInvocation(ctx *grammar.MemberInvocationContext) interface{} {
 	identifier := ctx.GetText()
+	// A delimited identifier (`div`) names the element between the back-ticks.
+	if len(identifier) >= 2 && strings.HasPrefix(identifier, "`") && strings.HasSuffix(identifier, "`") {
+		identifier = identifier[1 : len(identifier)-1]
+	}
 	var expression expr.Expression
 
 	if resource.IsType(identifier) && !v.visitedRoot {
